@@ -1,6 +1,3 @@
-//@unit tfb
-//@serves C12
-//@backend verus
 // Staging buffer utils/file/tempfilebuffer.rs: TempFileBufferWriter::{update, write, flush, drop},
 // TempFileBuffer::{switch, is_real_file_ready, len, await_real_file, expect_closed_write}.
 // Property C12: the destination ends up holding exactly the bytes written, each once and in order,
@@ -187,26 +184,26 @@ fn vpanic() -> !
 // =====================================================================================
 // the repository's types
 // =====================================================================================
-//@extract enum bigtools/src/utils/file/tempfilebuffer.rs BufferState
-//@sub /^enum BufferState/ => pub enum BufferState
-//@sub /Temp\(File\)/ => Temp(VTemp)
-//@end
+pub enum BufferState<R> {
+    NotStarted,
+    InMemory(Vec<u8>),
+    Temp(VTemp),
+    Real(R),
+}
 
-//@extract struct bigtools/src/utils/file/tempfilebuffer.rs TempFileBuffer
-//@rule R8
-//@sub /pub struct/ => #[verifier::reject_recursive_types(R)]\npub struct
-//@sub /Arc<\(Mutex<Option<BufferState<R>>>, Condvar\)>/ => Closed<R>
-//@sub /Arc<AtomicCell<Option<R>>>/ => Mailbox<R>
-//@sub /^(\s+)(closed|real_file|buffer_state|inmemory):/ => \1pub \2: min=2
-//@end
+#[verifier::reject_recursive_types(R)]
+pub struct TempFileBuffer<R> {
+    pub closed: Closed<R>,
+    pub real_file: Mailbox<R>,
+}
 
-//@extract struct bigtools/src/utils/file/tempfilebuffer.rs TempFileBufferWriter
-//@rule R8
-//@sub /pub struct/ => #[verifier::reject_recursive_types(R)]\npub struct
-//@sub /Arc<\(Mutex<Option<BufferState<R>>>, Condvar\)>/ => Closed<R>
-//@sub /Arc<AtomicCell<Option<R>>>/ => Mailbox<R>
-//@sub /^(\s+)(closed|real_file|buffer_state|inmemory):/ => \1pub \2: min=2
-//@end
+#[verifier::reject_recursive_types(R)]
+pub struct TempFileBufferWriter<R> {
+    pub closed: Closed<R>,
+    pub buffer_state: BufferState<R>,
+    pub real_file: Mailbox<R>,
+    pub inmemory: bool,
+}
 
 // =====================================================================================
 // specification vocabulary (written from the property)
@@ -257,64 +254,91 @@ pub open spec fn g_switched(g: G, d0: Seq<u8>) -> G { G { sw: true, d0: d0, w: g
 // =====================================================================================
 impl<R: Write> TempFileBufferWriter<R> {
 
-//@extract method bigtools/src/utils/file/tempfilebuffer.rs update "^impl<R: Write \+ Send \+ 'static> TempFileBufferWriter<R>$"
-//@ret r
-//@sub /fn update\(&mut self\) -> io::Result<\(\)>/ => fn update(&mut self, Tracked(mb): Tracked<&mut MbTok<R>>, Ghost(g): Ghost<G>) -> IoResult<()>
-//@sub /self\.real_file\.swap\(/ => self.real_file.swap1(Tracked(mb),  min=3 count=3
-//@sub /tempfile::tempfile\(\)/ => VTemp::create() min=0
-//@sub /io::SeekFrom::/ => SeekFrom:: min=0
-//@sub /io::copy\(/ => copy_temp( min=0
-//@sig
+fn update(&mut self, Tracked(mb): Tracked<&mut MbTok<R>>, Ghost(g): Ghost<G>) -> (r: IoResult<()>)
     requires
-        [[L: pre]]
+        
         old(mb).id() == old(self).real_file.id(),
         proto(old(self).buffer_state, old(mb).held(), g),
     ensures
-        [[L: frame]]
+        
         final(self).closed == old(self).closed, final(self).real_file == old(self).real_file,
         final(self).inmemory == old(self).inmemory, final(mb).id() == old(mb).id(),
-        [[L: polls_mailbox_at_most_once]]
+        
         final(mb).ops() == old(mb).ops() + (if old(self).buffer_state is Real { 0nat } else { 1nat }),
-        [[L: invariant_kept]]
+        
         r is Ok ==> proto(final(self).buffer_state, final(mb).held(), g),
-        [[L: mailbox_emptied]]
+        
         r is Ok ==> final(mb).held() is None,
-        [[L: started]]
+        
         r is Ok ==> !(final(self).buffer_state is NotStarted),
-        [[L: all_staged_bytes_migrated_in_order]]
+        
         r is Ok && g.sw ==> (final(self).buffer_state matches BufferState::Real(d) && d.bytes() =~= g.d0 + g.w),
-        [[L: staging_kind]]
+        
         r is Ok && !g.sw && old(self).buffer_state is NotStarted ==>
             (if old(self).inmemory { final(self).buffer_state is InMemory } else { final(self).buffer_state is Temp }),
         r is Ok && !g.sw && !(old(self).buffer_state is NotStarted) ==> final(self).buffer_state == old(self).buffer_state,
-//@end
+{
+        match &mut self.buffer_state {
+            BufferState::NotStarted => {
+                let real_file = self.real_file.swap1(Tracked(mb),None).take();
+                match real_file {
+                    Some(new_file) => {
+                        self.buffer_state = BufferState::Real(new_file);
+                    }
+                    None => {
+                        if self.inmemory {
+                            self.buffer_state =
+                                BufferState::InMemory(Vec::with_capacity(10 * 1_000));
+                        } else {
+                            self.buffer_state = BufferState::Temp(VTemp::create()?);
+                        }
+                    }
+                }
+            }
+            BufferState::InMemory(data) => {
+                let real_file = self.real_file.swap1(Tracked(mb),None).take();
+                if let Some(mut new_file) = real_file {
+                    new_file.write_all(&data)?;
+                    self.buffer_state = BufferState::Real(new_file);
+                }
+            }
+            BufferState::Temp(ref mut file) => {
+                let real_file = self.real_file.swap1(Tracked(mb),None).take();
+                if let Some(mut new_file) = real_file {
+                    file.seek(SeekFrom::Start(0))?;
 
-//@extract method bigtools/src/utils/file/tempfilebuffer.rs write "Write for TempFileBufferWriter<R>$"
-//@ret r
-//@rule R6 min=1
-//@sub /fn write\(&mut self, buf: &\[u8\]\) -> io::Result<usize>/ => fn write(&mut self, buf: &[u8], Tracked(mb): Tracked<&mut MbTok<R>>, Ghost(g): Ghost<G>) -> IoResult<usize>
-//@sub /self\.update\(\)\?;/ => self.update(Tracked(mb), Ghost(g))?; min=0 count=1
-//@sig
+                    copy_temp(file, &mut new_file)?;
+                    self.buffer_state = BufferState::Real(new_file);
+                }
+            }
+            BufferState::Real(_) => {}
+        }
+        Ok(())
+    }
+
+fn write(&mut self, buf: &[u8], Tracked(mb): Tracked<&mut MbTok<R>>, Ghost(g): Ghost<G>) -> (r: IoResult<usize>)
     requires
-        [[L: pre]]
+        
         old(mb).id() == old(self).real_file.id(),
         proto(old(self).buffer_state, old(mb).held(), g),
     ensures
-        [[L: frame]]
+        
         final(self).closed == old(self).closed, final(self).real_file == old(self).real_file,
         final(self).inmemory == old(self).inmemory, final(mb).id() == old(mb).id(),
-        [[L: polls_mailbox_at_most_once]]
+        
         final(mb).ops() <= old(mb).ops() + 1,
-        [[L: accepted_prefix]]
+        
         r matches Ok(n) ==> n <= buf@.len(),
-        [[L: written_grows_by_accepted_prefix_invariant_kept]]
+        
         r matches Ok(n) ==> proto(final(self).buffer_state, final(mb).held(), g_written(g, buf@.subrange(0, n as int))),
-        [[L: after_switch_bytes_go_to_destination]]
+        
         r matches Ok(n) ==> final(mb).held() is None && !(final(self).buffer_state is NotStarted)
             && (g.sw ==> final(self).buffer_state is Real),
-//@loop 1
+{
+        self.update(Tracked(mb), Ghost(g))?;
+        loop 
             invariant
-                [[L: loop/after_update]]
+                
                 proto(self.buffer_state, mb.held(), g),
                 mb.held() is None,
                 !(self.buffer_state is NotStarted),
@@ -323,43 +347,53 @@ impl<R: Write> TempFileBufferWriter<R> {
                 self.inmemory == old(self).inmemory, mb.id() == old(mb).id(),
                 mb.ops() <= old(mb).ops() + 1,
             decreases
-                [[L: loop/termination]]
+                
                 0int,
-//@end
+{
+            match self.buffer_state {
+                BufferState::NotStarted => vpanic(),
+                BufferState::InMemory(ref mut data) => return data.write(buf),
+                BufferState::Temp(ref mut file) => return file.write(buf),
+                BufferState::Real(ref mut file) => return file.write(buf),
+            }
+        }
+    }
 
-//@extract method bigtools/src/utils/file/tempfilebuffer.rs flush "Write for TempFileBufferWriter<R>$"
-//@ret r
-//@sub /fn flush\(&mut self\) -> io::Result<\(\)>/ => fn flush(&mut self) -> IoResult<()>
-//@sig
+fn flush(&mut self) -> (r: IoResult<()>)
     ensures
-        [[L: frame]]
+        
         final(self).closed == old(self).closed, final(self).real_file == old(self).real_file,
         final(self).inmemory == old(self).inmemory,
-        [[L: contents_unchanged]]
+        
         same_contents(old(self).buffer_state, final(self).buffer_state),
-//@end
+{
+        match self.buffer_state {
+            BufferState::NotStarted => Ok(()), // No data has been written, nothing to flush
+            BufferState::InMemory(_) => Ok(()), // All data is written immediately to vec
+            BufferState::Temp(ref mut file) => file.flush(),
+            BufferState::Real(ref mut file) => file.flush(),
+        }
+    }
 
-//@extract method bigtools/src/utils/file/tempfilebuffer.rs drop "^impl<R> Drop for TempFileBufferWriter<R>$"
-//@presub /let &\(ref lock, ref cvar\) = &\*self\.closed;\s*let mut closed = lock\.lock\(\)\.unwrap\(\);/ => let closed = self.closed.lock(Tracked(cl)); min=1 count=1
-//@sub /fn drop\(&mut self\)/ => fn drop(&mut self, Tracked(cl): Tracked<&mut ClTok<R>>)
-//@sub /std::mem::replace\(/ => mem_replace( min=1 count=1
-//@sub /\n\s*cvar\.notify_one\(\);/ => "" min=1 count=1
-//@sub /\n\s*drop\(closed\);/ => "" min=1 count=1
-//@sig
+fn drop(&mut self, Tracked(cl): Tracked<&mut ClTok<R>>)
     requires
-        [[L: pre]]
+        
         old(cl).id() == old(self).closed.id(),
     ensures
-        [[L: frame]]
+        
         final(self).closed == old(self).closed, final(self).real_file == old(self).real_file,
         final(self).inmemory == old(self).inmemory, final(cl).id() == old(cl).id(),
-        [[L: publishes_final_state_nothing_lost]]
+        
         final(cl).val() == Some(old(self).buffer_state),
-        [[L: publishes_once]]
+        
         final(cl).locks() == old(cl).locks() + 1,
-        [[L: writer_left_empty]]
+        
         final(self).buffer_state is NotStarted,
-//@end
+{
+        let closed = self.closed.lock(Tracked(cl));
+        let buffer_state = mem_replace(&mut self.buffer_state, BufferState::NotStarted);
+        *closed = Some(buffer_state);
+    }
 
 } // impl TempFileBufferWriter
 
@@ -368,113 +402,150 @@ impl<R: Write> TempFileBufferWriter<R> {
 // =====================================================================================
 impl<R: Write> TempFileBuffer<R> {
 
-//@extract method bigtools/src/utils/file/tempfilebuffer.rs switch "^impl<R: Write \+ Send \+ 'static> TempFileBuffer<R>$"
-//@rule R6 min=1
-//@sub /fn switch\(&mut self, new_file: R\)/ => fn switch(&mut self, new_file: R, Tracked(mb): Tracked<&mut MbTok<R>>, Ghost(st): Ghost<BufferState<R>>, Ghost(g): Ghost<G>)
-//@sub /self\.real_file\.swap\(/ => self.real_file.swap1(Tracked(mb),  min=1 count=1
-//@sig
+pub fn switch(&mut self, new_file: R, Tracked(mb): Tracked<&mut MbTok<R>>, Ghost(st): Ghost<BufferState<R>>, Ghost(g): Ghost<G>)
     requires
-        [[L: pre_invariant_and_switch_called_at_most_once]]
+        
         old(mb).id() == old(self).real_file.id(),
         proto(st, old(mb).held(), g),
         !g.sw,
     ensures
-        [[L: frame]]
+        
         *final(self) == *old(self), final(mb).id() == old(mb).id(),
-        [[L: one_mailbox_access]]
+        
         final(mb).ops() == old(mb).ops() + 1,
-        [[L: destination_handed_over_untouched]]
+        
         final(mb).held() == Some(new_file),
-        [[L: invariant_kept_now_switched]]
+        
         proto(st, final(mb).held(), g_switched(g, new_file.bytes())),
-//@end
+{
+        if self.real_file.swap1(Tracked(mb),Some(new_file)).is_some() {
+            vpanic();
+        }
+    }
 
-//@extract method bigtools/src/utils/file/tempfilebuffer.rs is_real_file_ready "^impl<R: Write \+ Send \+ 'static> TempFileBuffer<R>$"
-//@ret r
-//@presub /let &\(ref lock, _\) = &\*self\.closed;\s*let closed = lock\.lock\(\)\.unwrap\(\);/ => let closed = self.closed.lock(Tracked(cl)); min=1 count=1
-//@sub /fn is_real_file_ready\(&self\)/ => fn is_real_file_ready(&self, Tracked(cl): Tracked<&mut ClTok<R>>)
-//@sig
+pub fn is_real_file_ready(&self, Tracked(cl): Tracked<&mut ClTok<R>>) -> (r: bool)
     requires
-        [[L: pre]]
+        
         old(cl).id() == self.closed.id(),
     ensures
-        [[L: true_iff_producer_has_published]]
+        
         r == (old(cl).val() is Some),
-        [[L: frame]]
+        
         final(cl).val() == old(cl).val(), final(cl).id() == old(cl).id(), final(cl).locks() == old(cl).locks() + 1,
-//@end
+{
+        let closed = self.closed.lock(Tracked(cl));
 
-//@extract method bigtools/src/utils/file/tempfilebuffer.rs len "^impl<R: Write \+ Send \+ 'static> TempFileBuffer<R>$"
-//@ret r
-//@rule R6 min=1
-//@presub /let &\(ref lock, ref cvar\) = &\*self\.closed;\s*let mut closed = lock\.lock\(\)\.unwrap\(\);\s*while closed\.is_none\(\) \{\s*closed = cvar\.wait\(closed\)\.unwrap\(\);\s*\}/ => let mut closed = self.closed.wait_closed(Tracked(cl)); min=1 count=1
-//@sub /fn len\(&self\) -> io::Result<u64>/ => fn len(&self, Tracked(cl): Tracked<&mut ClTok<R>>, Ghost(w): Ghost<Seq<u8>>) -> IoResult<u64>
-//@sub /io::SeekFrom::/ => SeekFrom:: min=0
-//@sig
+        closed.is_some()
+    }
+
+pub fn len(&self, Tracked(cl): Tracked<&mut ClTok<R>>, Ghost(w): Ghost<Seq<u8>>) -> (r: IoResult<u64>)
     requires
-        [[L: pre_published_and_not_switched]]
+        
         old(cl).id() == self.closed.id(),
         old(cl).val() matches Some(st) && !(st is Real) && staging_ok(st, w),
     ensures
-        [[L: reported_length_is_bytes_written]]
+        
         r matches Ok(n) ==> n as int == w.len(),
-        [[L: state_kept]]
+        
         r is Ok ==> (final(cl).val() matches Some(st2) && same_contents(old(cl).val().unwrap(), st2)),
-        [[L: frame]]
+        
         final(cl).id() == old(cl).id(), final(cl).locks() == old(cl).locks() + 1,
-//@end
+{
+        let mut closed = self.closed.wait_closed(Tracked(cl));
+        let closed = closed.as_mut();
 
-//@extract method bigtools/src/utils/file/tempfilebuffer.rs await_real_file "^impl<R: Write \+ Send \+ 'static> TempFileBuffer<R>$"
-//@ret d
-//@rule R6 min=2
-//@presub /let &\(ref lock, ref cvar\) = &\*self\.closed;\s*let mut closed = lock\.lock\(\)\.unwrap\(\);\s*while closed\.is_none\(\) \{\s*closed = cvar\.wait\(closed\)\.unwrap\(\);\s*\}/ => let mut closed = self.closed.wait_closed(Tracked(cl)); min=1 count=1
-//@sub /fn await_real_file\(self\)/ => fn await_real_file(self, Tracked(mb): Tracked<&mut MbTok<R>>, Tracked(cl): Tracked<&mut ClTok<R>>, Ghost(g): Ghost<G>)
-//@sub /self\.real_file\.swap\(/ => self.real_file.swap1(Tracked(mb),  min=1 count=1
-//@sub /io::SeekFrom::/ => SeekFrom:: min=0
-//@sub /io::copy\(/ => copy_temp( min=0
-//@sub /(real_file\.write_all\(&data\)|closed_file\.seek\(SeekFrom::Start\(0\)\)|copy_temp\(&mut closed_file, &mut real_file\))\.unwrap\(\);/ => io_ok(\1); min=0
-//@sig
+        match closed.unwrap() {
+            BufferState::Real(_) => vpanic(),
+            BufferState::InMemory(data) => Ok(data.len() as u64),
+            BufferState::Temp(ref mut t) => t.seek(SeekFrom::Current(0)),
+            BufferState::NotStarted => Ok(0),
+        }
+    }
+
+pub fn await_real_file(self, Tracked(mb): Tracked<&mut MbTok<R>>, Tracked(cl): Tracked<&mut ClTok<R>>, Ghost(g): Ghost<G>) -> (d: R)
     requires
-        [[L: pre_published_invariant_and_switched]]
+        
         old(mb).id() == self.real_file.id(),
         old(cl).id() == self.closed.id(),
         old(cl).val() matches Some(st) && proto(st, old(mb).held(), g),
         g.sw,
     ensures
-        [[L: destination_holds_d0_then_all_written_bytes_once_in_order]]
+        
         d.bytes() =~= g.d0 + g.w,
-        [[L: cells_emptied]]
+        
         final(mb).held() is None, final(cl).val() is None,
-        [[L: frame]]
+        
         final(mb).id() == old(mb).id(), final(cl).id() == old(cl).id(),
         final(mb).ops() == old(mb).ops() + 1, final(cl).locks() == old(cl).locks() + 1,
-//@end
+{
+        let mut closed = self.closed.wait_closed(Tracked(cl));
+        let closed = closed.take().unwrap();
 
-//@extract method bigtools/src/utils/file/tempfilebuffer.rs expect_closed_write "^impl<R: Write \+ Send \+ 'static> TempFileBuffer<R>$"
-//@ret r
-//@rule R6 min=2
-//@rule R14 min=3
-//@presub /let &\(ref lock, ref cvar\) = &\*self\.closed;\s*let mut closed = lock\.lock\(\)\.unwrap\(\);\s*while closed\.is_none\(\) \{\s*closed = cvar\.wait\(closed\)\.unwrap\(\);\s*\}/ => let mut closed = self.closed.wait_closed(Tracked(cl)); min=1 count=1
-//@sub /mut real_: &mut O\) -> io::Result<\(\)>/ => mut real_: &mut O, Tracked(mb): Tracked<&mut MbTok<R>>, Tracked(cl): Tracked<&mut ClTok<R>>, Ghost(g): Ghost<G>) -> IoResult<()>
-//@sub /self\.real_file\.swap\(/ => self.real_file.swap1(Tracked(mb),  min=1 count=1
-//@sub /io::SeekFrom::/ => SeekFrom:: min=0
-//@sub /io::copy\(&mut closed_file, &mut real_\)/ => copy_temp(&mut closed_file, real_) min=0
-//@sig
+        let real_file = self.real_file.swap1(Tracked(mb),None);
+
+        match (real_file, closed) {
+            (Some(mut real_file), BufferState::InMemory(data)) => {
+                // Switch was called but no writes have happened
+                // Writer was dropped with data having been written
+                io_ok(real_file.write_all(&data));
+                real_file
+            }
+            (Some(mut real_file), BufferState::Temp(mut closed_file)) => {
+                // Switch was called but no writes have happened
+                // Writer was dropped with temp file having been written
+                io_ok(closed_file.seek(SeekFrom::Start(0)));
+                io_ok(copy_temp(&mut closed_file, &mut real_file));
+                real_file
+            }
+            (Some(_), BufferState::Real(_)) => vpanic(),
+            (Some(real_file), BufferState::NotStarted) => {
+                // Switch was called but no writes have happened
+                // Writer was dropped with no tempfile being created (or written to)
+                real_file
+            }
+            (None, BufferState::Real(real_file)) => real_file,
+            (None, BufferState::InMemory(_) | BufferState::Temp(_) | BufferState::NotStarted) => {
+                vpanic()
+            }
+        }
+    }
+
+pub fn expect_closed_write<O>(self, mut real_: &mut O, Tracked(mb): Tracked<&mut MbTok<R>>, Tracked(cl): Tracked<&mut ClTok<R>>, Ghost(g): Ghost<G>) -> (r: IoResult<()>) where
+        O: Write,
     requires
-        [[L: pre_published_invariant_and_never_switched]]
+        
         old(mb).id() == self.real_file.id(),
         old(cl).id() == self.closed.id(),
         old(cl).val() matches Some(st) && proto(st, old(mb).held(), g),
         !g.sw,
     ensures
-        [[L: out_gets_exactly_the_written_bytes_once_in_order]]
+        
         r is Ok ==> final(real_).bytes() =~= old(real_).bytes() + g.w,
-        [[L: cells_emptied]]
+        
         final(mb).held() is None, final(cl).val() is None,
-        [[L: frame]]
+        
         final(mb).id() == old(mb).id(), final(cl).id() == old(cl).id(),
         final(mb).ops() == old(mb).ops() + 1, final(cl).locks() == old(cl).locks() + 1,
-//@end
+{
+        let mut closed_ = self.closed.wait_closed(Tracked(cl));
+        let closed_ = closed_.take().unwrap();
+
+        let real_file = self.real_file.swap1(Tracked(mb),None);
+        assert(real_file.is_none());
+
+        match closed_ {
+            BufferState::Temp(mut closed_file) => {
+                closed_file.seek(SeekFrom::End(0))?;
+                copy_temp(&mut closed_file, real_)?;
+            }
+            BufferState::InMemory(data) => {
+                real_.write_all(&data)?;
+            }
+            BufferState::NotStarted => {}
+            BufferState::Real(_) => vpanic(),
+        }
+        Ok(())
+    }
 
 } // impl TempFileBuffer
 
@@ -522,10 +593,10 @@ fn write_phase<R: Write>(writer: &mut TempFileBufferWriter<R>, writes: &Vec<Vec<
     ensures
         final(writer).closed == old(writer).closed, final(writer).real_file == old(writer).real_file,
         final(writer).inmemory == old(writer).inmemory, final(mb).id() == old(mb).id(),
-        [[L: phase/invariant_kept_over_any_number_of_writes]]
+        
         r matches Ok(a2) ==> a2@.len() == hi && accepted(a2@, writes@)
             && proto(final(writer).buffer_state, final(mb).held(), G { sw: g.sw, d0: g.d0, w: flat(a2@) }),
-        [[L: phase/each_write_polls_the_mailbox_at_most_once]]
+        
         final(mb).ops() <= old(mb).ops() + (hi - lo),
 {
     let mut i = lo;
@@ -540,7 +611,7 @@ fn write_phase<R: Write>(writer: &mut TempFileBufferWriter<R>, writes: &Vec<Vec<
             proto(writer.buffer_state, mb.held(), G { sw: g.sw, d0: g.d0, w: flat(a) }),
             mb.ops() <= old(mb).ops() + (i - lo),
         decreases
-            [[L: phase/termination]]
+            
             hi - i,
     {
         let ghost gi = G { sw: g.sw, d0: g.d0, w: flat(a) };
@@ -568,7 +639,7 @@ fn driver_switch_at_k<R: Write>(buffer: TempFileBuffer<R>, writer: TempFileBuffe
         fresh_pair(buffer, writer, mb, cl),
         k <= writes@.len(),
     ensures
-        [[L: order1/destination_is_d0_then_every_accepted_byte_once_in_order]]
+        
         r matches Ok(p) ==> p.1@.len() == writes@.len() && accepted(p.1@, writes@)
             && p.0.bytes() =~= dest.bytes() + flat(p.1@),
 {
@@ -598,7 +669,7 @@ fn driver_switch_after_drop<R: Write>(buffer: TempFileBuffer<R>, writer: TempFil
     requires
         fresh_pair(buffer, writer, mb, cl),
     ensures
-        [[L: order2/destination_is_d0_then_every_accepted_byte_once_in_order]]
+        
         r matches Ok(p) ==> p.1@.len() == writes@.len() && accepted(p.1@, writes@)
             && p.0.bytes() =~= dest.bytes() + flat(p.1@),
 {
@@ -613,7 +684,7 @@ fn driver_switch_after_drop<R: Write>(buffer: TempFileBuffer<R>, writer: TempFil
     let ghost last = writer.buffer_state;
     writer.drop(Tracked(&mut cl));
     let ready = buffer.is_real_file_ready(Tracked(&mut cl));
-    assert(ready); [[L: order2/ready_after_drop]]
+    assert(ready); 
     buffer.switch(dest, Tracked(&mut mb), Ghost(last), Ghost(g1));
     let d = buffer.await_real_file(Tracked(&mut mb), Tracked(&mut cl), Ghost(g_switched(g1, d0)));
     Ok((d, a1))
@@ -625,7 +696,7 @@ fn driver_never_switched<R: Write, O: Write>(buffer: TempFileBuffer<R>, writer: 
     requires
         fresh_pair(buffer, writer, mb, cl),
     ensures
-        [[L: order3/out_gets_every_accepted_byte_once_in_order_and_len_is_their_number]]
+        
         r matches Ok(p) ==> p.1@.len() == writes@.len() && accepted(p.1@, writes@)
             && final(out).bytes() =~= old(out).bytes() + flat(p.1@)
             && p.0 as int == flat(p.1@).len(),
@@ -646,3 +717,4 @@ fn driver_never_switched<R: Write, O: Write>(buffer: TempFileBuffer<R>, writer: 
 
 } // verus!
 fn main() {}
+
